@@ -1113,10 +1113,8 @@ def hp2dms(hp):
     :return: Degrees, Minutes, Seconds Object
     :rtype: DMSAngle
     """
-    degmin, second = divmod(abs(hp) * 1000, 10)
-    degree, minute = divmod(degmin, 100)
-    return (DMSAngle(degree, minute, second * 10, positive=True) if hp >= 0
-            else DMSAngle(degree, minute, second * 10, positive=False))
+    # read the fields from the decimal digits (as hp2dec does), not from binary floating point multiples of the HP value
+    return dec2dms(hp2dec(hp))
 
 
 def hp2ddm(hp):
@@ -1127,10 +1125,8 @@ def hp2ddm(hp):
     :return: Degrees, Decimal Minutes Object
     :rtype: DDMAngle
     """
-    degmin, second = divmod(abs(hp) * 1000, 10)
-    degree, minute = divmod(degmin, 100)
-    minute = minute + (second / 6)
-    return DDMAngle(degree, minute, positive=True) if hp >= 0 else DDMAngle(degree, minute, positive=False)
+    # read the fields from the decimal digits (as hp2dec does), not from binary floating point multiples of the HP value
+    return dec2ddm(hp2dec(hp))
 
 
 # Functions converting from Gradians format to other formats
